@@ -175,6 +175,31 @@ VecOpSt(ty, st, t, k) ==
   ELSE R(VecLoopSt(ResizeSt(ty, st, t, VMin(T.lo, O.lo), VMax(T.hi, O.hi)), t, o))
 
 (***************************************************************************)
+(* Arithmetic with several operands, one operand position at a time given  *)
+(* an incompatible index range.  The operands are temporaries made by the   *)
+(* driver: operand number q has the index range of the target (or, at the   *)
+(* chosen position, the variant `code' of it) and the values 10q+1, 10q+2.. *)
+(*   code 1: one element shorter   2: one element longer at the top         *)
+(*        3: shifted by one        4: one element longer at the bottom      *)
+(***************************************************************************)
+VarRange(T, code) ==
+  LET n == VLen(T) IN
+  CASE code = 1 -> IF n > 0 THEN << T.lo, T.hi - 1 >> ELSE << T.lo, T.hi >>
+    [] code = 2 -> IF n > 0 THEN << T.lo, T.hi + 1 >> ELSE << 0, 0 >>
+    [] code = 3 -> IF n > 0 THEN << T.lo + 1, T.hi + 1 >> ELSE << T.lo, T.hi >>
+    [] code = 4 -> IF n > 0 THEN << T.lo - 1, T.hi >> ELSE << -1, -1 >>
+    [] OTHER -> << T.lo, T.hi >>
+TempVec(T, q, pos, code) ==
+  LET r == IF q = pos THEN VarRange(T, code) ELSE << T.lo, T.hi >> IN
+  IF r[2] < r[1] THEN EmptyVec
+  ELSE [lo |-> r[1], hi |-> r[2], v |-> [j \in 1..(r[2] - r[1] + 1) |-> 10 * q + j], base |-> 0, cap |-> 0]
+TempEl(W, i) == W.v[i - W.lo + 1]
+MultiKinds == {"XapybM", "XapybSM", "SapybM"}
+VecKindOf(i) == << "VAdd", "VSub", "VMul", "VDiv" >>[i + 1]
+WithTemp(st, t, W) == [st EXCEPT !.s[Other(t)] = W]
+RestoreOther(r, st, t) == [r EXCEPT !.st = [r.st EXCEPT !.s[Other(t)] = st.s[Other(t)]]]
+
+(***************************************************************************)
 (* The operations.  op = [k, t, a, b]: kind, target slot, two integers.    *)
 (***************************************************************************)
 InRange(T, i) == VLen(T) > 0 /\ i >= T.lo /\ i <= T.hi
@@ -235,17 +260,37 @@ Apply(ty, st, op) ==
          IF ~SameRange(T, O) THEN E(st)
          ELSE R(Loop(st, T.lo, T.hi, LAMBDA s, i :
                   Wr(s, t, i, Add(Mul(Rd(s, Other(t), i), Rd(s, t, i)), Mul(Rd(s, t, i), Rd(s, Other(t), i))))))
+    [] k = "XapybM" ->      \* this.xapyb(x, a, y, b) with vector coefficients: "index ranges don't match" is an error
+         LET x == TempVec(T, 1, op.a, op.b)  a == TempVec(T, 2, op.a, op.b)
+             y == TempVec(T, 3, op.a, op.b)  b == TempVec(T, 4, op.a, op.b) IN
+         IF \E W \in {x, a, y, b} : ~SameRange(T, W) THEN E(st)
+         ELSE R(Loop(st, T.lo, T.hi, LAMBDA s, i : Wr(s, t, i, Add(Mul(TempEl(x, i), TempEl(a, i)), Mul(TempEl(y, i), TempEl(b, i))))))
+    [] k = "XapybSM" ->     \* this.xapyb(x, 2, y, 3) with scalar coefficients
+         LET x == TempVec(T, 1, op.a, op.b)  y == TempVec(T, 2, op.a, op.b) IN
+         IF \E W \in {x, y} : ~SameRange(T, W) THEN E(st)
+         ELSE R(Loop(st, T.lo, T.hi, LAMBDA s, i : Wr(s, t, i, Add(Mul(TempEl(x, i), 2), Mul(TempEl(y, i), 3)))))
+    [] k = "SapybM" ->      \* this.sapyb(a, y, b) with vector coefficients = xapyb(*this, a, y, b)
+         LET a == TempVec(T, 1, op.a, op.b)  y == TempVec(T, 2, op.a, op.b)  b == TempVec(T, 3, op.a, op.b) IN
+         IF \E W \in {a, y, b} : ~SameRange(T, W) THEN E(st)
+         ELSE R(Loop(st, T.lo, T.hi, LAMBDA s, i : Wr(s, t, i, Add(Mul(Rd(s, t, i), TempEl(a, i)), Mul(TempEl(y, i), TempEl(b, i))))))
+    [] k = "VOpM" ->        \* this op= w  (op number a: + - * /) with a temporary right operand of variant range b
+         RestoreOther(VecOpSt(ty, WithTemp(st, t, TempVec(T, 1, 1, op.b)), t, VecKindOf(op.a)), st, t)
+    [] k = "BOpM" ->        \* slot t := this op w  (binary operator)
+         LET priv == [st EXCEPT !.s[t] = [lo |-> T.lo, hi |-> T.hi, v |-> C(st, t), base |-> 0, cap |-> 0]]
+             r == VecOpSt(ty, WithTemp(priv, t, TempVec(T, 1, 1, op.b)), t, VecKindOf(op.a)) IN
+         IF r.err THEN E(st) ELSE RestoreOther(r, st, t)
     [] k = "MemSet" ->      \* the external memory is written directly
          R([st EXCEPT !.blk[op.a] = op.b])
     [] k = "Nop" -> R(st)
 
 \* which operations a vector type has / when the call is within the documented contract
-HasOp(ty, k) == ty # "VI" \/ k \notin (ScalOps \cup {"Sapyb", "XapybV"})
+HasOp(ty, k) == ty # "VI" \/ k \notin (ScalOps \cup {"Sapyb", "XapybV"} \cup MultiKinds)
 Enabled(ty, st, op) ==
   /\ HasOp(ty, op.k)
   /\ op.k = "View" => (op.b >= op.a /\ op.b - op.a + 1 <= Len(st.blk))
   /\ op.k = "MemSet" => (op.a >= 1 /\ op.a <= Len(st.blk))
   /\ op.k = "GrowBy" => (op.a >= 0 /\ op.b >= 0)
+  /\ op.k \in {"VOpM", "BOpM"} => op.a \in 0..3
   \* integer division by zero is outside the contract of VectorWithOffset<int>::operator/=
   /\ (op.k \in {"VDiv", "BDiv"} /\ ty = "VI" /\ SameRange(st.s[op.t], st.s[Other(op.t)]))
         => \A x \in { C(st, Other(op.t))[j] : j \in 1..VLen(st.s[Other(op.t)]) } : x # 0 /\ x # U
@@ -321,6 +366,10 @@ P_Errors(ty, st, op, r) ==
   IN /\ r.err => r.st = st
      /\ op.k \in {"SetAt", "GetAt"} => (r.err <=> ~InRange(T, op.a))
      /\ (op.k \in {"Sapyb", "XapybV"} \/ (ty = "VI" /\ op.k \in VecOps)) => (r.err <=> ~SameRange(T, O))
+     \* every operand position counts: one operand with another index range is enough for the error
+     /\ op.k \in MultiKinds => (r.err <=> (op.a >= 1 /\ op.a <= (CASE op.k = "XapybM" -> 4 [] op.k = "XapybSM" -> 2 [] OTHER -> 3)
+                                           /\ ~SameRange(T, TempVec(T, op.a, op.a, op.b))))
+     /\ (ty = "VI" /\ op.k \in {"VOpM", "BOpM"}) => (r.err <=> ~SameRange(T, TempVec(T, 1, 1, op.b)))
 
 \* "arrays that view shared memory alias it exactly until they are resized beyond it":
 \* a vector still bound to the block reads the block's cells, a detached one is unaffected by it
